@@ -104,21 +104,24 @@ def resolve(k: int, d0: bool, d1: bool, d2: bool, c0: bool, c1: bool, c2: bool) 
 AVAIL_MENU = [["y", "a", "b"], ["b", "a", "y"], ["a"], ["c", "b", "a", "y"], [], ["y"], ["b", "y", "c"], ["a", "c"],
               # column names that are not identifiers, that read like an expression, or that shadow a built-in transform
               ["body mass", "a", "log", "y"], ["a-b", "a", "b", "y", "scale"]]
-LHS_MENU = [None, "y", "y + a", "a", "b + y", "c", "`body mass`", "log", "`a-b`", "`a-b` + scale"]
+LHS_MENU = [None, "y", "y + a", "a", "b + y", "c", "`body mass`", "log", "`a-b`", "`a-b` + scale",
+            # Python code on the left-hand side: the columns it reads are used, however they are written
+            "np.log(`body mass`)", "np.abs(y.values) + {a + 1}", "I(`a-b` * b)"]
+LHS_USED = {"np.log(`body mass`)": {"body mass"}, "np.abs(y.values) + {a + 1}": {"y", "a"}, "I(`a-b` * b)": {"a-b", "b"}}
 
 
 def dot_expand(av: int, lh: int, ii: bool, extra: int) -> bool:
     """
-    pre: 0 <= av < 10 and 0 <= lh < 10 and 0 <= extra < 3 and av == __SHARD__
+    pre: 0 <= av < 10 and 0 <= lh < 13 and 0 <= extra < 3 and av == __SHARD__
     post: _
     """
-    av, lh, extra = _pick(av, 0, 9), _pick(lh, 0, 9), _pick(extra, 0, 2)
+    av, lh, extra = _pick(av, 0, 9), _pick(lh, 0, 12), _pick(extra, 0, 2)
     ii = bool(ii)
     available = AVAIL_MENU[av]
     lhs = LHS_MENU[lh]
     rhs = [".", ". + a", "b + ."][extra]
     formula = rhs if lhs is None else f"{lhs} ~ {rhs}"
-    used = set() if lhs is None else {t.strip().strip("`") for t in lhs.split("+")}
+    used = set() if lhs is None else LHS_USED[lhs] if lhs in LHS_USED else {t.strip().strip("`") for t in lhs.split("+")}
     want = [v for v in available if v not in used]
     if extra == 1:
         want = want + (["a"] if "a" not in want else [])
